@@ -352,6 +352,13 @@ def g_opt(fn, edge):
                     if tt != ft and edge_dominates(fn, sb, tt, edge.bb) and not _reassigned_between(fn, sig, tt, edge.bb, producers):
                         return True, "dominated by the true edge of flag `%s`, which is only true when is_some(%s) held" % (
                             fn.local_name(h) or "_%d" % h, pretty_sig(sig))
+    # the value is built as the wanted variant on every path that reaches the call (an arm that assigned Some(..) and, after
+    # jump threading, continues straight to the use)
+    from ..flow import value_sources
+    want_name = ("Err" if want_err else "Ok") if is_result else ("None" if want_err else "Some")
+    srcs = value_sources(fn, l, edge.bb)
+    if srcs and all(x[0] == "agg" and x[1] == want_name for x in srcs):
+        return True, "built as %s(..) on every path reaching the call" % want_name
     # discriminant switch on the same place
     good_variant = (1 if want_err else 0) if is_result else (0 if want_err else 1)
     for b in fn.reachable:
